@@ -311,7 +311,16 @@ class RunExit(_RunBase):
         yield 'canary:returns_u0', exc is None and result[0] is st.L['u0']
 
 
-CONTRACTS = [RunEntry, RunBody, RunExit]
+def _chaining_inside_a_block():
+    # "each accepted step starts from exactly the end value of the previous accepted step" INSIDE a block rests on the block protocol:
+    # a step is declared done only after its predecessor (it_check: prefix closed), and what it last received is the predecessor's final
+    # end value (send_full / recv_full). These are the C07 contracts, re-exported because a change there breaks C06 as well.
+    from contracts.C07_block import ItCheck, SendFull, RecvFull
+
+    return [type(b.__name__ + '_C06', (b,), dict(prop='C06')) for b in (ItCheck, SendFull, RecvFull)]
+
+
+CONTRACTS = [RunEntry, RunBody, RunExit] + _chaining_inside_a_block()
 
 
 # ------------------------------------------------------------------------------------------------ lemmas
